@@ -176,6 +176,80 @@ def norm_cond(c):
         return ('truthy', c), sense
 
 
+def _is_logical(e):
+    while isinstance(e, dict) and e.get('k') in ('paren', 'cast') and isinstance(e.get('e'), dict):
+        e = e['e']
+    if not isinstance(e, dict):
+        return False
+    if e.get('k') == 'bin' and e.get('op') in ('&&', '||'):
+        return True
+    if e.get('k') == 'un' and e.get('op') == '!':
+        return _is_logical(e['e'])
+    return False
+
+
+def _eval_logical(e, env):
+    """Truth (0/1) of a short-circuit expression whose operands were just evaluated on this path: the outcome of
+    every operand branch is in env as ('lc', spelling).  None when an operand that matters is unknown."""
+    while isinstance(e, dict) and e.get('k') in ('paren', 'cast') and isinstance(e.get('e'), dict):
+        e = e['e']
+    if not isinstance(e, dict):
+        return None
+    if e.get('k') == 'int':
+        return int(e['v'] != 0)
+    v = env.get(('lc', estr(e)))
+    if isinstance(v, bool):
+        return int(v)
+    if e.get('k') == 'un' and e.get('op') == '!':
+        x = _eval_logical(e['e'], env)
+        return None if x is None else int(not x)
+    if e.get('k') == 'bin' and e.get('op') in ('&&', '||'):
+        a = _eval_logical(e['l'], env)
+        if a is not None:
+            if e['op'] == '&&' and not a:
+                return 0
+            if e['op'] == '||' and a:
+                return 1
+        b = _eval_logical(e['r'], env)
+        if a is None or b is None:
+            if b is not None and ((e['op'] == '&&' and not b) or (e['op'] == '||' and b)):
+                return int(b)
+            return None
+        return int(b)
+    return None
+
+
+def _reduce_logical(e, env):
+    """Like _eval_logical, but may also return the single operand expression the value still depends on
+    (('leaf', expr)) when every other operand that matters is known.  Returns 0/1, ('leaf', expr) or None."""
+    while isinstance(e, dict) and e.get('k') in ('paren', 'cast') and isinstance(e.get('e'), dict):
+        e = e['e']
+    if not isinstance(e, dict):
+        return None
+    if e.get('k') == 'int':
+        return int(e['v'] != 0)
+    v = env.get(('lc', estr(e)))
+    if isinstance(v, bool):
+        return int(v)
+    if e.get('k') == 'bin' and e.get('op') in ('&&', '||'):
+        a = _reduce_logical(e['l'], env)
+        b = _reduce_logical(e['r'], env)
+        absorbing = 0 if e['op'] == '&&' else 1
+        if a == absorbing or b == absorbing:
+            return absorbing if a == absorbing or isinstance(a, int) else None
+        if a == (1 - absorbing):
+            return b
+        if b == (1 - absorbing):
+            return a
+        return None
+    if e.get('k') == 'un' and e.get('op') == '!':
+        x = _reduce_logical(e['e'], env)
+        if isinstance(x, int):
+            return int(not x)
+        return None
+    return ('leaf', e)
+
+
 # ---------------------------------------------------------------------------
 # explorer
 
@@ -226,6 +300,8 @@ class Ctx:
         v = self.var(e)
         if v and v[0] == 'c':
             return v[1]
+        if _is_logical(e):
+            return _eval_logical(e, self.env)
         return None
 
     def truth_of(self, e):
@@ -386,6 +462,15 @@ class Explorer:
             return ('?',)
         if k in ('paren', 'cast') and isinstance(rhs.get('e'), dict):
             return self._abstract(rhs['e'], env)
+        if _is_logical(rhs):
+            v = _eval_logical(rhs, env)
+            if v is not None:
+                return ('c', v)
+            red = _reduce_logical(rhs, env)
+            if isinstance(red, tuple):
+                a, sense = norm_cond(red[1])
+                if a is not None and a[0] == 'truthy' and a[1].get('k') == 'call':
+                    return ('call', a[1]['id']) if sense else ('ncall', a[1]['id'])
         return ('?',)
 
     def _apply_event(self, ev, env):
@@ -617,6 +702,10 @@ class Explorer:
                         ctx.env = env
                         self.on_exit(user, ctx, ev.get('e'), ev)
                 env = self._apply_event(ev, env)
+                if ev['ev'] in ('assign', 'decl', 'return') and any(k[0] == 'lc' for k in env) \
+                        and _is_logical(ev.get('init') if ev['ev'] == 'decl' else
+                                        (ev['e'].get('r') if ev['ev'] == 'assign' else ev.get('e'))):
+                    env = {k: v for k, v in env.items() if k[0] != 'lc'}
             succs = blk['succs']
             term = blk.get('term')
             if bid == fn.exit:
@@ -634,6 +723,9 @@ class Explorer:
                 continue
             if len(succs) == 2 and term is not None and term.get('cond') is not None:
                 atom, sense = norm_cond(term['cond'])
+                shortcut = kind in ('BinaryOperator', 'ConditionalOperator')
+                if not shortcut and any(k[0] == 'lc' for k in env):
+                    env = {k: v for k, v in env.items() if k[0] != 'lc'}     # the condition has been consumed
                 for idx, s in enumerate(succs):
                     if s < 0:
                         continue
@@ -641,6 +733,9 @@ class Explorer:
                     env2 = self._refine(atom, edge_sense, env)
                     if env2 is None:
                         continue
+                    if shortcut:
+                        env2 = dict(env2)
+                        env2[('lc', estr(term['cond']))] = (idx == 0)
                     u2 = user
                     if self.on_edge is not None:
                         ctx.env = env2
